@@ -312,6 +312,39 @@ pub fn all(prop: &str, cancelable: bool) -> Vec<Template> {
             p.done()
         }));
     }
+    if want(&["C09", "C10"]) {
+        // the scope's span limit is hit by local spans entered directly in the scope (no local span
+        // open): the skipped ones must leave the scope's context as it was
+        let mut o = placed();
+        o.fresh_threads = false;
+        v.push(tpl("scope-over-the-span-limit/at-top-level", o, 3, move || {
+            let mut p = B::new(1, c);
+            let r = p.root(0);
+            p.guard(0, r);
+            for i in 0..10_300u32 {
+                p.lenter(0);
+                p.pop(0);
+                if i % 1500 == 0 || i >= 10_236 && i <= 10_244 {
+                    p.op(0, Op::CurLocal);
+                }
+            }
+            p.op(0, Op::CurLocal);
+            let ch = new_span_label();
+            p.op(0, Op::ChildLocal { l: ch, np: 0, k0: 0 });
+            p.op(0, Op::FromSpan { span: ch });
+            p.lenter(0);
+            p.op(0, Op::CurLocal);
+            p.ladd_event(0);
+            p.pop(0);
+            p.ladd_props(0);
+            p.op(0, Op::CurLocal);
+            p.pop(0);
+            p.op(0, Op::CurLocal);
+            p.finish(0, ch);
+            p.finish(0, r);
+            p.done()
+        }));
+    }
     if want(&["C09"]) {
         // local limits: the first 10240 entries of a scope are recorded with the right parents,
         // the rest is skipped; a 4097th nested scope is not registered and harms nothing
